@@ -184,8 +184,22 @@ func c04WaitS(sdone chan string, max time.Duration, onTimeout string) (string, b
 	case s := <-sdone:
 		return s, true
 	case <-t.C:
+		if onTimeout == "stuck" {
+			c04StuckSeen++
+		}
 		return onTimeout, false
 	}
+}
+
+// c04StuckBound: how long the harness waits for a wrapper that must return promptly.  After the first
+// wrapper that did not (already a violation), later waits are short so that a broken tree does not cost hours.
+var c04StuckSeen int
+
+func c04StuckBound() time.Duration {
+	if c04StuckSeen > 0 {
+		return 100 * time.Millisecond
+	}
+	return 2 * time.Second
 }
 
 func c04Rest(op []string) string {
@@ -253,14 +267,14 @@ func c04Rest(op []string) string {
 	sret, returned := "", false
 	if !alive {
 		// the handler ended first: ServeHTTP returns through done / panic; a later expiry must be harmless
-		sret, returned = c04WaitS(sdone, 5*time.Second, "stuck")
+		sret, returned = c04WaitS(sdone, c04StuckBound(), "stuck")
 		fire()
 	} else {
 		fire()
 		if direct {
 			sret, returned = c04WaitS(sdone, 15*time.Millisecond, "blocked")
 		} else {
-			sret, returned = c04WaitS(sdone, 5*time.Second, "stuck")
+			sret, returned = c04WaitS(sdone, c04StuckBound(), "stuck")
 		}
 	}
 	atret := c04View(rec)
@@ -269,7 +283,7 @@ func c04Rest(op []string) string {
 	}
 	fin := "same"
 	if !returned {
-		fin, _ = c04WaitS(sdone, 5*time.Second, "stuck")
+		fin, _ = c04WaitS(sdone, c04StuckBound(), "stuck")
 	}
 	final := c04View(rec)
 	return fmt.Sprintf("sret=%s atret=%s results=%s final=%s fin=%s", sret, atret, strings.Join(results, ","), final, fin)
@@ -321,11 +335,11 @@ func c04Race(op []string) string {
 	case "cancel":
 		parent.fire(context.Canceled)
 	}
-	sret, _ := c04WaitS(sdone, 5*time.Second, "stuck")
+	sret, _ := c04WaitS(sdone, c04StuckBound(), "stuck")
 	atret := c04View(rec)
 	select {
 	case <-hdone:
-	case <-time.After(5 * time.Second):
+	case <-time.After(c04StuckBound()):
 		return "handler-stuck"
 	}
 	final := c04View(rec)
@@ -359,7 +373,7 @@ func c04Deadline(op []string) string {
 	var s seen
 	select {
 	case s = <-ch:
-	case <-time.After(5 * time.Second):
+	case <-time.After(c04StuckBound()):
 		return "dl=handler-not-run"
 	}
 	t1 := time.Now()
